@@ -215,6 +215,9 @@ CONFIGS = [
     {"journal": "file", "proto": "custom", "others": False, "restart": True},
 ]
 CLASSIC = CONFIGS[0]
+# application hooks that send: on_state_change for every state the library announces, on_logon, on_message
+HOOKS = ([{"state": st} for st in (17, 10, 12, 7, 8, 11, 3, 2, 17, 10)]
+         + [{"logon": True}, {"message": True}, {"state": 17, "logon": True, "message": True}])
 _PROTO = {}
 
 
@@ -253,7 +256,60 @@ class Rig:
         if role is not None:
             conn._connection_role = role   # the client / server subclass constructors fix the role
         impl.conn = conn
+        self.install_hooks()
         return conn
+
+    # ---- application hooks that SEND (implementation + oracle only: the model's hooks return without
+    #      calling back).  spec = {"state": <ConnectionState value> | None, "logon": bool, "message": bool}:
+    #      when that state is announced / on_logon / on_message runs, the hook sends ONE new application
+    #      message through the public send_msg() and returns normally whatever send_msg does; what
+    #      send_msg did is recorded in self.hook_log as (where, "ok" | exception kind).
+    hook = None
+    hook_log = ()
+
+    def set_hook(self, spec):
+        self.hook = spec
+        self.hook_log = []
+        self.install_hooks()
+
+    def install_hooks(self):
+        import types
+
+        impl, conn, spec, log = self.impl, self.impl.conn, self.hook, self.hook_log
+        for name in ("on_state_change", "on_logon", "on_message"):
+            conn.__dict__.pop(name, None)
+        if not spec:
+            return
+        eff = impl.eff
+
+        async def hook_send(where):
+            m = impl.FIXMessage("D")
+            m.set(11, "from-hook")
+            m.set(58, where)
+            try:
+                await conn.send_msg(m)
+                log.append((where, "ok"))
+            except Exception as e:  # a well-behaved hook returns normally
+                log.append((where, S.exc_kind(e)))
+
+        async def on_state_change(self_, s):
+            eff.append(("S", int(s)))
+            if spec.get("state") is not None and int(s) == spec["state"]:
+                await hook_send("on_state_change(%d)" % int(s))
+
+        async def on_logon(self_, healthy):
+            eff.append(("L", bool(healthy)))
+            if spec.get("logon"):
+                await hook_send("on_logon")
+
+        async def on_message(self_, msg):
+            eff.append(("D", msg))
+            if spec.get("message"):
+                await hook_send("on_message")
+
+        conn.on_state_change = types.MethodType(on_state_change, conn)
+        conn.on_logon = types.MethodType(on_logon, conn)
+        conn.on_message = types.MethodType(on_message, conn)
 
     def others(self):
         """two more sessions in the same journal: a foreign CompID pair, and one sharing our SenderCompID"""
@@ -701,19 +757,28 @@ def declines(sr, n):
     return n in {int(x) for x in sr[1:].split(",")}
 
 
-def oracle_history(rig, start, events):
-    """run [(sr, ev)] on the real connection (configured per rig.cfg) and check the property clauses;
-    returns failures"""
+def oracle_history(rig, start, events, hook=None):
+    """run [(sr, ev)] on the real connection (configured per rig.cfg; `hook`: application hooks that send)
+    and check the property clauses; returns failures"""
     fails = []
     impl = rig.impl
 
     def fail(sig, what, step, expected=None, observed=None):
         fails.append({"signature": sig, "what": what,
-                      "input": {"cfg": rig.cfg, "start": start.tokens(),
+                      "input": {"cfg": rig.cfg, "hook": hook, "start": start.tokens(),
                                 "events": [[s, ev_json(e)] for s, e in events[: step + 1]]},
                       "expected": expected, "observed": observed})
 
+    try:
+        return _oracle_history(rig, start, events, hook, fails, fail)
+    finally:
+        rig.set_hook(None)
+
+
+def _oracle_history(rig, start, events, hook, fails, fail):
+    impl = rig.impl
     rig.load(start)
+    rig.set_hook(hook)
     MD = impl.MD
     jr, sess = impl.journal, impl.conn._session
     key = (sess.target_comp_id, sess.sender_comp_id)
@@ -741,7 +806,15 @@ def oracle_history(rig, start, events):
                 others0 = rig.snapshot_others()
             continue
         before = impl.dump()
+        n_hook = len(rig.hook_log)
         rig.apply(sr, ev)
+        for where, res in rig.hook_log[n_hook:]:
+            # a NEW message the application sends from a hook is an ordinary send: accepted (numbered, journaled -
+            # judged below with everything written) or refused because of the state / its text; it never meets a
+            # journal row of its own number and nothing else goes wrong inside send_msg
+            if res not in ("ok", "Connection", "Encoding") and own_seen is None:
+                fail("C05-hook-send-failed:" + res, "a new message sent from %s died inside send_msg" % where, i,
+                     "ok / FIXConnectionError", res)
         writes = [e[1] for e in impl.eff if e[0] == "W"]
         raised = [e[1] for e in impl.eff if e[0] in ("R", "C")]
         frames = [fields(b) for b in writes]
@@ -876,7 +949,7 @@ def witness_own():
 
 def oracle(ctx, disagreements, broken):
     failures, n_hist, n_ev = [], 0, 0
-    per_cfg = {}
+    per_cfg, per_hook = {}, {}
     try:
         # 1. witnesses of the open / repaired findings, corpus
         for a, ev in (witness_d9(), witness_own()):
@@ -884,7 +957,7 @@ def oracle(ctx, disagreements, broken):
             n_hist += 1
         for d in load_corpus():
             failures += oracle_history(rig_for(d.get("cfg", CLASSIC)), S.parse_conn_tokens(d["start"]),
-                                       [(sr, ev_tuple(e)) for sr, e in d["events"]])
+                                       [(sr, ev_tuple(e)) for sr, e in d["events"]], d.get("hook"))
             n_hist += 1
         # 2. the disagreeing inputs first
         for dg in disagreements[:200]:
@@ -901,7 +974,7 @@ def oracle(ctx, disagreements, broken):
         # 3. generated histories over every configuration (journal kind x protocol class x shared journal x
         #    restarts): clean stream (no own-number sends: any failure is new; ResendRequests of every shape),
         #    and a stream with own-number sends (failures must carry the known signature)
-        budget = ctx.n(300, 1500) * (4 if broken else 1)
+        budget = ctx.n(240, 1500) * (4 if broken else 1)
         max_len = ctx.n(30, 60)
         for k in range(budget):
             own = (k % 4 == 3)
@@ -910,6 +983,12 @@ def oracle(ctx, disagreements, broken):
             start, steps = gen_history(ctx.rng, rig, max_len, own, True)
             evs = [(s[0], s[1]) for s in steps]
             failures += oracle_history(rig, start, evs)
+            if k % 2 == 0:
+                # the same history once more with application hooks that SEND (one new message per trigger)
+                hook = HOOKS[(k // 2) % len(HOOKS)]
+                failures += oracle_history(rig, start, evs, hook)
+                hk = "state=%s%s%s" % (hook.get("state"), "+logon" if hook.get("logon") else "", "+message" if hook.get("message") else "")
+                per_hook[hk] = per_hook.get(hk, 0) + 1
             n_hist += 1
             n_ev += len(evs)
             ck = f"{cfg['journal']}/{cfg['proto']}/{'shared' if cfg['others'] else 'alone'}/{'restarts' if cfg['restart'] else 'no-restart'}"
@@ -919,6 +998,7 @@ def oracle(ctx, disagreements, broken):
     # one representative (the shortest input) per signature is enough for a replay
     failures.sort(key=lambda f: len(f["input"]["events"]))
     ctx.oracle_stats = {"histories": n_hist, "events": n_ev, "failures": len(failures), "configurations": per_cfg,
+                        "hook_histories": per_hook,
                         "by_signature": {s: sum(1 for f in failures if f["signature"] == s) for s in {f["signature"] for f in failures}}}
     return failures
 
@@ -941,7 +1021,7 @@ def replay(ctx, rp):
     inp = rp["input"]
     try:
         fs = oracle_history(rig_for(inp.get("cfg", CLASSIC)), S.parse_conn_tokens(inp["start"]),
-                            [(sr, ev_tuple(e)) for sr, e in inp["events"]])
+                            [(sr, ev_tuple(e)) for sr, e in inp["events"]], inp.get("hook"))
     finally:
         close_rigs()
     sigs = sorted({f["signature"] for f in fs})
